@@ -34,22 +34,31 @@ _rig = {}
 
 
 def get_rig(cfgkey):
+    """A FRESH simulator for every state expansion: whatever hidden state a (broken) simulator accumulates is then a function
+    of the requests logged in rig.log, which is what a violation's replay file carries."""
     typ, variant, nvals, seam, via_main = cfgkey
-    r = _rig.get("rig")
-    if r is None or _rig.get("key") != cfgkey:
-        r = TS.Rig(TS.config(typ, variant), seam=seam, via_main=via_main)
-        _rig["rig"], _rig["key"] = r, cfgkey
+    r = TS.Rig(TS.config(typ, variant), seam=seam, via_main=via_main)
+    if _rig.get("key") != cfgkey:
+        _rig["key"] = cfgkey
         _rig["alphabet"] = list(TS.valid_requests(r.cfg, r.sim.addr_of, nvals))
     return r, _rig["alphabet"]
 
 
 def expand(acc, item, tier, seed):
     cfgkey, states, (k_, K_) = item
-    rig, alphabet = get_rig(cfgkey)
-    alphabet = alphabet[k_::K_]
+    alphabet = None
     for state in states:
+        rig, alphabet = get_rig(cfgkey)
+        alphabet = alphabet[k_::K_]
+        if k_ == 0 and state is states[0]:
+            for msg in rig.config_problems:
+                acc.violation("tag-configuration-aliased", {"cfg": cfgkey, "state": state, "history": []}, msg)
+
+        def viol(k, m):
+            acc.violation(k, {"cfg": cfgkey, "state": state, "history": list(rig.log)}, m)
+
         for k, m in rig.seat(state):
-            acc.violation(k, {"cfg": cfgkey, "state": state, "req": None}, m)
+            viol(k, m)
         base = rig.state()
         initial = all(v == type(v)() for _, vals in base for v in vals)
         for req, closed in alphabet:
@@ -62,7 +71,7 @@ def expand(acc, item, tier, seed):
             if changed or (not initial and req[0] in ("rd", "rf", "gas")):
                 acc.ntc()
             for k, m in bad:
-                acc.violation(k, {"cfg": cfgkey, "state": state, "req": req}, m)
+                viol(k, m)
             if changed:
                 if closed:
                     acc.succ.add((cfgkey, TS.norm_state(after)))
@@ -72,15 +81,18 @@ def expand(acc, item, tier, seed):
                     name = req[1][1]
                     n = len(dict(after)[name])
                     for k, m in rig.step(("rd", ("sym", name, None), n)):
-                        acc.violation("probe-readback:" + k, {"cfg": cfgkey, "state": state, "req": req}, m)
+                        viol("probe-readback:" + k, m)
                     acc.count("transitions")
                 for k, m in rig.seat(state):
-                    acc.violation(k, {"cfg": cfgkey, "state": state, "req": req}, m)
-    acc.sample({"cfg": cfgkey, "state": states[0], "req": alphabet[len(alphabet) // 2][0]})
+                    viol(k, m)
+    if alphabet:
+        acc.sample({"cfg": cfgkey, "state": states[0], "history": [alphabet[len(alphabet) // 2][0]]})
 
 
-def roots_for(ctx):
-    if ctx.quick:
+def roots_for(ctx, many=False):
+    if many:
+        keys = [("INT", "many", 2, "cm", False)] if ctx.quick else [("INT", "many", 2, "cm", True), ("SSTRING", "many", 2, "cm", False)]
+    elif ctx.quick:
         keys = [(t, "small", 2, "cm", False) for t in ("USINT", "REAL", "LINT", "SSTRING", "BOOL")]
         keys += [("INT", "std", 2, "cm", False), ("DINT", "small", 2, "rr", True)]
     else:
@@ -99,6 +111,12 @@ def roots_for(ctx):
 
 def run(ctx):
     acc = explore.bfs(ctx, __name__, "expand", roots_for(ctx), chunk=2, splits=4)
+    # more than ten auto-allocated tags in one instance: 2^19 store states do not close; explored to depth 2 (every pair of writes
+    # followed by every read), which is what aliasing between tags needs
+    many = [(k, st) for k, st in roots_for(ctx, many=True)]
+    acc.merge(explore.bfs(ctx, __name__, "expand", many, chunk=4, splits=2, max_depth=2 if ctx.quick else 3))
+    acc.counters.pop("cap_hit", None)
+    acc.note("config 'many' (12 auto-allocated tags) is depth-bounded (2 quick / 3 thorough), all other configurations closed")
     acc.count("traces_validated_against_impl", acc.counters.get("transitions", 0))
     return acc
 
@@ -118,26 +136,6 @@ def guards(acc, ctx):
 def replay(case):
     cfgkey = tuple(case["cfg"])
     rig = TS.Rig(TS.config(cfgkey[0], cfgkey[1]), seam=cfgkey[3], via_main=cfgkey[4])
-    msgs = []
-    state = tuple((n, tuple(v)) for n, v in case["state"])
-    for k, m in rig.seat(state):
-        msgs.append(m)
-    if case.get("req") is not None:
-        req = detuple(case["req"])
-        for k, m in rig.step(req):
-            msgs.append(m)
-        if rig.state() != state and req[0] in ("wt", "wf"):
-            name = req[1][1]
-            tag, _, _ = rig.model.resolve(req[1])
-            if tag is not None:
-                for k, m in rig.step(("rd", ("sym", tag.name, None), tag.n)):
-                    msgs.append(m)
-        for k, m in rig.seat(state):
-            msgs.append(m)
+    msgs = list(rig.config_problems)
+    msgs += TS.replay_history(rig, case.get("history", []))
     return msgs
-
-
-def detuple(x):
-    if isinstance(x, list):
-        return tuple(detuple(v) for v in x)
-    return x
